@@ -66,12 +66,13 @@ fn canonical_root(s: &Scratch) -> String {
 		.into_owned()
 }
 
-fn describe(out: &ChildOut) -> String {
+/// Scrub the run-specific scratch root *before* clipping, so that excerpts are run-independent
+fn describe(out: &ChildOut, root: &str) -> String {
 	format!(
 		"{} stdout={:?} stderr[0]={:?}",
 		out.ended.describe(),
-		out.stdout_str().chars().take(160).collect::<String>(),
-		out.stderr_str().lines().next().unwrap_or("").chars().take(160).collect::<String>()
+		out.stdout_str().replace(root, "<scratch>").chars().take(160).collect::<String>(),
+		out.stderr_str().replace(root, "<scratch>").lines().next().unwrap_or("").chars().take(160).collect::<String>()
 	)
 }
 
@@ -252,7 +253,7 @@ impl Scenario for C07Cli {
 			plan.jpaths,
 			plan.env_paths,
 			snippet_for(&plan.entry),
-			describe(&out),
+			describe(&out, &root),
 			want.as_ref().map(c07::show).map_err(|c| format!("{c:?}"))
 		));
 		rec.state(hash_str(&format!("{}|{}|{}|{}", plan.cwd, plan.jpaths.len(), plan.env_paths.len(), want.is_ok())));
@@ -280,12 +281,12 @@ impl Scenario for C07Cli {
 			(Ended::Exit(1), Ok(w)) => rec.violate(
 				"cli-result-differs-from-model",
 				"ok->error",
-				format!("jrsonnet {args:?} (cwd {}) failed ({}), the world model resolves it to {}", plan.cwd, describe(&out), c07::show(w)),
+				format!("jrsonnet {args:?} (cwd {}) failed ({}), the world model resolves it to {}", plan.cwd, describe(&out, &root), c07::show(w)),
 			),
 			(other, _) => rec.violate(
 				"process-died",
 				other.describe().split(' ').next().unwrap_or(""),
-				format!("jrsonnet {args:?}: {}", describe(&out)),
+				format!("jrsonnet {args:?}: {}", describe(&out, &root)),
 			),
 		}
 	}
@@ -814,7 +815,7 @@ impl Scenario for C15Cli {
 			"args={:?} cwd={} -> {} files={:?} ; library ok={} stdout={:?} files={:?} err={:?}",
 			args,
 			plan.cwd,
-			describe(&out),
+			describe(&out, &root),
 			created.keys().collect::<Vec<_>>(),
 			lib.ok,
 			lib.stdout.chars().take(120).collect::<String>(),
@@ -863,7 +864,7 @@ impl Scenario for C15Cli {
 					rec.violate(
 						"cli-fails-library-succeeds",
 						&sig,
-						format!("jrsonnet {args:?} exited {c} ({}) but the library computes {:?}", describe(&out), lib.stdout.chars().take(200).collect::<String>()),
+						format!("jrsonnet {args:?} exited {c} ({}) but the library computes {:?}", describe(&out, &root), lib.stdout.chars().take(200).collect::<String>()),
 					);
 				}
 			}
@@ -875,7 +876,7 @@ impl Scenario for C15Cli {
 			(other, _) => rec.violate(
 				"process-died",
 				other.describe().split(' ').next().unwrap_or(""),
-				format!("jrsonnet {args:?}: {}", describe(&out)),
+				format!("jrsonnet {args:?}: {}", describe(&out, &root)),
 			),
 		}
 	}
@@ -1104,11 +1105,11 @@ impl Scenario for C15Deps {
 				return;
 			}
 			(Ended::Exit(1), None) => {
-				rec.violate("deps-differ-from-model", "fails", format!("jrsonnet-deps {args:?} failed: {}", describe(&out)));
+				rec.violate("deps-differ-from-model", "fails", format!("jrsonnet-deps {args:?} failed: {}", describe(&out, &root)));
 				return;
 			}
 			(other, _) => {
-				rec.violate("process-died", other.describe().split(' ').next().unwrap_or(""), format!("jrsonnet-deps {args:?}: {}", describe(&out)));
+				rec.violate("process-died", other.describe().split(' ').next().unwrap_or(""), format!("jrsonnet-deps {args:?}: {}", describe(&out, &root)));
 				return;
 			}
 		}
